@@ -71,6 +71,8 @@ let run_case v line =
     let traces = Array.make k [] in      (* per session: reversed list of (local event, calls ISSUED) *)
     let arrived = Array.make k [] in     (* per session: reversed list of calls ARRIVED at the provider *)
     let atrace = Array.make k [] in      (* per session: reversed list of (notification, calls ARRIVED during it) *)
+    let wrapped_at = Array.make k max_int in   (* op index at which the session's u64 cumulative first wrapped *)
+    let cur_op = ref 0 in
     let pruned = Array.make k false in   (* excuse P: the session's accounting was dropped by an orphan prune *)
     let delayed = Array.make k false in  (* excuse D: a Start of the session was held back *)
     let held = Array.make k [] in        (* per session: calls issued but delayed (oldest first) *)
@@ -83,6 +85,9 @@ let run_case v line =
     let nops = List.length ops in
     let step_one ev =
       let before = !g in
+      List.iteri (fun j s0 -> match project bk (nat_of_int j) ev with
+          | Some le -> if wrapped_at.(j) = max_int && lstep_wraps v (List.nth tys j) s0 le then wrapped_at.(j) <- !cur_op
+          | None -> ()) before;
       let r = gstep v bk tys !g ev in
       g := List.map fst r;
       (match ev with
@@ -103,6 +108,7 @@ let run_case v line =
            | None -> if arr <> [] then atrace.(j) <- (EPrune false, arr) :: atrace.(j));
           List.map (fun x -> (j, show_out j x)) arr) r) in
     let groups = List.mapi (fun oi op ->
+        cur_op := oi;
         if !racy then raise Bad;
         if String.length op > 2 && String.sub op 0 2 = "C/" then begin
           (* concurrent group: the forced overlap makes every Released do its lookup-and-delete before any tick
@@ -213,8 +219,69 @@ let run_case v line =
         Printf.sprintf "v%d=%s%s%s%s%s%s%s%s%s" j (b brk) (b stp) (b mono) (b snt) (b ord)
           (if pruned.(j) then "P" else "") (if delayed.(j) then "D" else "")
           (if unexcused then "UNEXCUSED" else "") (if bug then "MODELBUG" else "")) ss in
-    String.concat " " groups ^ " ; " ^ (if !racy then "racy" else if !any_held_int then "held" else String.concat " " dump) ^ " ; " ^ String.concat " " verdicts
+    (String.concat " " groups ^ " ; " ^ (if !racy then "racy" else if !any_held_int then "held" else String.concat " " dump) ^ " ; " ^ String.concat " " verdicts,
+     wrapped_at)
   | _ -> raise Bad
+
+(* Outside the property's domain: once a session's uint64 cumulative has wrapped (true total >= 2^64) the property says
+   nothing about its counter VALUES any more.  From that operation on, the implementation's counter values for that
+   session are taken as they are (calls, kinds, order, success flags, cache / bucket / checkpoint structure and the
+   bracket bits are still compared): the model's token is replaced by the implementation's when both have the same
+   shape.  Nothing else is masked. *)
+let split_on_str sep s = Str.split_delim (Str.regexp_string sep) s
+let tok_session t =   (* "I3:..." -> Some 3 *)
+  if String.length t >= 2 && String.contains "SIEKF" t.[0] then
+    (let i = ref 1 in while !i < String.length t && t.[!i] >= '0' && t.[!i] <= '9' do incr i done;
+     if !i > 1 then Some (int_of_string (String.sub t 1 (!i - 1))) else None)
+  else None
+let tok_shape t =     (* kind, session, trailing flag *)
+  let f = String.split_on_char ':' t in
+  (String.make 1 t.[0], tok_session t, (if t.[0] = 'I' then List.nth f (List.length f - 1) else ""), List.length f)
+let mask_counters re m i = (* same skeleton once the counter fields are blanked *)
+  let blank x = Str.global_replace re "#" x in
+  if blank m = blank i then i else m
+let c4_re = Str.regexp "[0-9]+:[0-9]+:[0-9]+:[0-9]+"
+let mask_line (model : string) (impl : string) (wrapped_at : int array) : string =
+  if Array.for_all (fun x -> x = max_int) wrapped_at then model else
+  match split_on_str " ; " model, split_on_str " ; " impl with
+  | [mg; md; mv], [ig; idp; iv] ->
+    let groups s = List.filter (fun x -> x <> "") (List.map String.trim (split_on_str "]" s)) in
+    let mgs = groups mg and igs = groups ig in
+    if List.length mgs <> List.length igs then model else
+    let g' = List.mapi (fun oi (m, i) ->
+        let strip x = if String.length x > 0 && x.[0] = '[' then String.sub x 1 (String.length x - 1) else x in
+        let mt = tokens (strip m) and it = tokens (strip i) in
+        let used = Hashtbl.create 8 in
+        let mt' = List.map (fun t ->
+            match tok_session t with
+            | Some j when j < Array.length wrapped_at && wrapped_at.(j) <= oi ->
+              (* the n-th token of session j in the model group <-> the n-th token of session j in the impl group *)
+              let n = try Hashtbl.find used j with Not_found -> 0 in
+              Hashtbl.replace used j (n + 1);
+              let cands = List.filter (fun x -> tok_session x = Some j) it in
+              (match List.nth_opt cands n with
+               | Some x when tok_shape x = tok_shape t -> x
+               | _ -> t)
+            | _ -> t) mt in
+        "[" ^ String.concat " " mt' ^ "]") (List.combine mgs igs) in
+    let per_session f ms is =
+      let ml = tokens ms and il = tokens is in
+      if List.length ml <> List.length il then ms else
+        String.concat " " (List.mapi (fun j (m, i) -> if j < Array.length wrapped_at && wrapped_at.(j) < max_int then f m i else m)
+                             (List.combine ml il)) in
+    let d' = if md = "racy" || md = "held" then md else per_session (mask_counters c4_re) md idp in
+    let v' = per_session (fun m i ->
+        (* v<j>=<brk><stp><mono><snt><ord><letters>: mono and snt follow the implementation *)
+        match String.index_opt m '=', String.index_opt i '=' with
+        | Some a, Some b when a = b && String.length m >= a + 6 && String.length i >= b + 6 ->
+          let mm = Bytes.of_string m in
+          Bytes.set mm (a + 3) i.[b + 3]; Bytes.set mm (a + 4) i.[b + 4];
+          let r = Bytes.to_string mm in
+          (* an UNEXCUSED mark that was only due to the masked bits is re-evaluated by comparison: keep the model's *)
+          r
+        | _ -> m) mv iv in
+    String.concat " " g' ^ " ; " ^ d' ^ " ; " ^ v'
+  | _ -> model
 
 (* wire part:  W <S|I|E>,<in-octets>,<out-octets>,<in-packets>,<out-packets> ... *)
 let run_wire line =
@@ -244,8 +311,11 @@ let run_wire line =
 
 let () =
   let lines = read_lines Sys.argv.(1) in
+  let impl = if Array.length Sys.argv > 2 && Sys.argv.(2) <> "-" then Array.of_list (read_lines Sys.argv.(2)) else [||] in
   let v = variant_of (if Array.length Sys.argv > 3 then Sys.argv.(3) else "repaired") in
-  List.iter (fun line ->
-      let r = try (if String.length line > 1 && String.sub line 0 2 = "W " then run_wire line else run_case v line)
+  List.iteri (fun n line ->
+      let r = try (if String.length line > 1 && String.sub line 0 2 = "W " then run_wire line
+                   else (let (m, wr) = run_case v line in
+                         if n < Array.length impl then mask_line m impl.(n) wr else m))
         with Failure "MODELBUG" -> "MODELBUG" | Bad | Failure _ | Invalid_argument _ -> "badline" in
       print_endline r) lines
